@@ -10,14 +10,38 @@ COMMON_NOTE = ("Trusted base: the simulator (/verif/sim: seeded sequencer, SimNe
 
 # property id -> (technique, level text, design ref, extra note)
 CLAIMS = {
- 'C01': ("deterministic simulation: block-boundary invariant over real keeper state + bank-event ledger, seeded multi-party swap/join/exit/leverage traffic with tx loss/dup/reorder, gas-starvation aborts, oracle outages, clock jumps",
+ 'C01': ("deterministic simulation: state invariant evaluated at every transaction boundary and block boundary (culprit localisation) over real keeper state, seeded multi-party swap/join/exit/leverage/perpetual traffic with tx loss/dup/reorder, gas-starvation aborts, oracle outages, clock jumps",
          "Every committed block of every simulated history: for every pool and asset book reserve <= bank balance of the pool address and the excess is explained by plain third-party sends; per-denom liquidity total == sum of reserves.", "5/C01", ""),
- 'C02': ("deterministic simulation: block-boundary invariant (TotalShares = supply = sum committed = custody) + ledger attribution of every share mint/burn to a join/create/exit",
-         "Checked after every block of every simulated history, including leveraged-LP joins/exits on behalf of position addresses and liquidations.", "5/C02", ""),
- 'C18': ("deterministic simulation with fault injection: oracle outages, clock gaps/jumps (1 ms .. 40 days), restarts, adversarial/dust traffic; oracle = FinalizeBlock/Commit never errors or panics",
+ 'C02': ("deterministic simulation: step-wise invariant (TotalShares = supply = sum committed = custody) + bank-event ledger attribution of every share mint/burn to a join/create/exit",
+         "Checked at every transaction and block boundary of every simulated history, including leveraged-LP joins/exits on behalf of position addresses and liquidations.", "5/C02", ""),
+ 'C03': ("deterministic simulation: every executed swap (all swaps execute in the amm end blocker) is re-priced against pool reserves reconstructed from the ordered real bank movements immediately before it; exact rational bound for equal weights, float bound with the stated 1e-8 allowance for unequal weights, oracle-value bound for oracle pools",
+         "Held on every swap of every explored history (user requests, fee conversions, multi-hop hops, both directions). Does not cover the numeric input space of the pure pricing functions uniformly: reserves, weights, fees and prices are swarm-randomised and evolve along trajectories.", "5/C03", "Numeric-domain completeness of the pure functions is out of this technique's reach."),
+ 'C04': ("deterministic simulation: reference model with one record per accepted swap request (diff of the transient queue after every transaction), matched against the ordered end-block swap settlements and cross-checked with the bank-event ledger; schedules = seeded block composition/order, duplicates, same/opposite directions on one pool",
+         "Each accepted request settles at most once within its limits or leaves no movement; no settlement without a request of the same block; queue empty before the first transaction of the next block.", "5/C04", ""),
+ 'C05': ("deterministic simulation: per-share pool value recorded at every transaction/block boundary; whenever a step changed a pool's share supply (join, exit, leveraged-LP open/close, sweep liquidation) the per-share value left behind must not fall beyond the stated rounding allowance",
+         "Constant-product pools: ln(weighted geometric mean of reserves / shares); oracle pools: value at oracle prices per share (a fall must show under both the raw-reserve and the accounted-balance basis). Exits emptying a reserve or the share supply are flagged.", "5/C05", "Numeric-domain completeness of the pure functions is out of this technique's reach."),
+ 'C06': ("deterministic simulation: exact equation TotalValue == cash + sum(principal + stacked - paid interest) evaluated at every transaction and block boundary under lender / leveraged-LP / liquidation traffic, clock jumps and interest-rate changes",
+         "Exact integer equality after every step of every simulated history.", "5/C06", ""),
+ 'C07': ("deterministic simulation: big.Rat reference of the redemption rate around every bond/unbond (pre/post state of the transaction), monotonic rate on every other step, immediate bond->unbond round trips generated in one block, 90% cap after every step that raised principal",
+         "Per operation and per step on every simulated history; amounts from 1 base unit upward, non-integral rates after interest accrual.", "5/C07", "Numeric-domain completeness of the pure functions is out of this technique's reach."),
+ 'C08': ("deterministic simulation: step-wise invariant pool total == sum of positions, position shares == committed shares at the position address, counter == stored positions, nothing left at addresses of closed positions; bots naming arbitrary/all positions, begin-block sweep with small page sizes, gas starvation inside close handlers",
+         "Checked at every transaction and block boundary.", "5/C08", ""),
+ 'C09': ("deterministic simulation: step-wise invariant pool custody/liabilities/collateral per side and asset == sums over stored positions, counter == #positions, amm reserve >= total custody; long/short/consolidate/top-up/close/liquidation traffic with funding and interest settlement, gas starvation",
+         "Checked at every transaction and block boundary.", "5/C09", ""),
+ 'C11': ("deterministic simulation: step-wise invariant accounted balance == reserve + liabilities - custody and non-amm part == liabilities - custody under alternating amm-side and perpetual-side operations",
+         "Checked at every transaction and block boundary (take-profit term off, as in the default parameters).", "5/C11", ""),
+ 'C12': ("deterministic simulation: step-wise invariants total == sum over accounts (bug-compatible relation for known finding F04), custody >= committed + claimed for bank-backed denoms, no negative committed; commit/uncommit/bond/unbond/join/exit/leveraged-LP/vesting/EdenB traffic",
+         "Checked at every transaction and block boundary. The chain-wide total deviates by exactly 2 x uncommitted (known finding F04, not repairable without failing the existing suite); any other drift is a violation.", "5/C12", "Lock-up expiry is exercised through failed early exits/unbonds but has no dedicated oracle yet."),
+ 'C14': ("deterministic simulation: integer reference model of every vesting entry applied per vest/claim/cancel/vest-now transaction (pre/post state), conservation Eden in == released + returned + scheduled, claims must not fail",
+         "Per transaction on every simulated history; schedules 5..100 blocks, 1..10 concurrent vestings, claims/cancels at arbitrary heights.", "5/C14", ""),
+ 'C15': ("deterministic simulation: every coinbase/burn event of every block (ledger self-checked against real supply of every denom) must be an allowed kind: vesting release of uelys by commitment, burner/gov/slashing burns of uelys, share mint/burn by amm/stablestake",
+         "Every block of every simulated history, failed transactions and liquidations included.", "5/C15", ""),
+ 'C16': ("deterministic simulation: reference model map[(asset,source)][timestamp] + feeder registry derived from authorised transactions and executed gov proposals, compared with the real lookups of every known asset/denom after every block; names that are prefixes/concatenations of one another, feeder (de)activation/removal, non-feeder feeds, expiry by time and by blocks",
+         "After every block of every simulated history. Exact store-key collisions of concatenated names are known finding F11.", "5/C16", ""),
+ 'C18': ("deterministic simulation with fault injection: oracle outages, clock gaps/jumps (1 ms .. 40 days), restarts, adversarial/dust traffic; oracle = FinalizeBlock/Commit never errors or panics on any node",
          "Every FinalizeBlock and Commit of every node in every run must succeed; a failure is reported with the minimised trace.", "5/C18", ""),
  'C19': ("deterministic simulation with crash/restart injection: twin replicas fed identical blocks, restart after commit / between FinalizeBlock and Commit / by injected disk read error; thorough tier restarts the replica after every height",
-         "App hash, tx results (code, gas, data, log, events) and validator updates compared after every block between a reference node and a replica that is crashed and rebuilt from its SimDB.", "5/C19", ""),
+         "App hash, tx results (code, codespace, gas, data, events) and validator updates compared after every block between a reference node and a replica that is crashed and rebuilt from its SimDB.", "5/C19", ""),
 }
 NOT_YET = "check not built yet in this revision of /verif (simulation monitor planned in DESIGN.md section 5); not claimed until it runs"
 
@@ -27,6 +51,7 @@ for p in props:
     if pid in CLAIMS:
         tech, text, ref, note = CLAIMS[pid]
         cat = 'exploration'
+        thorough_level = None
         checks.append({
           'property_id': pid,
           'quick_cmd': f'./check {pid} quick',
